@@ -170,6 +170,25 @@ CLAIMS = {
         "technique": "contract-based deductive verification (heap frame postconditions by symbolic execution)",
         "design_ref": "DESIGN.md section 4 C14",
     },
+    "C12": {
+        "text": ("Proof on the input-buffer functions of the real SimulationBuilder, with period keys as an uninterpreted sort and "
+                 "CANON = str o period: add_variable_value places the checked value at the instance's index of the array buffered "
+                 "under the canonical spelling of the key, keeps every other index (default where nothing was buffered), every other "
+                 "period and every other variable, and turns a refused value into a situation error that changes nothing; "
+                 "init_variable_values sends every declared (key, value) - an undated value under the default period - to "
+                 "add_variable_value with the instance's index and refuses unknown / foreign variables, unparsable keys and undated "
+                 "values without default period as situation errors; finalize_variables_init hands every buffered array to the "
+                 "variable's holder once and the shorter period (unit weight, size as numbers) first; add_default_group_entity puts "
+                 "person i in group i with the first role."),
+        "note": ("Bounded and labelled so: finalize_variables_init and init_variable_values are verified for two symbolic periods / "
+                 "keys; group memberships, roles, own groups of persons left out and the membership refusals (add_group_entity) are "
+                 "only a bounded stand-in on the real code over a stated set of small situations. NOT decided: axes expansion, "
+                 "value conversions of check_set_value, document-shape dispatch. The C05 round trip (CANON idempotent) is an "
+                 "assumption. Three genuine defects were repaired by fix: commits (raw vs canonical key, string-ordered flush, "
+                 "id collision of persons left out)."),
+        "technique": "contract-based deductive verification (maps over an uninterpreted key sort, recording call-site contracts + SMT; one bounded stand-in)",
+        "design_ref": "DESIGN.md section 4 C12",
+    },
     "C13": {
         "text": ("Proof by symbolic execution of the real Simulation.clone, Population.clone, GroupPopulation.clone and Holder.clone "
                  "on a heap with concrete object identities and symbolic contents: every part of the clone refers to the clone "
